@@ -105,13 +105,10 @@ def peekAggregateDelay (b : Bottleneck) (now : Int) : Nat :=
 /-- `push_aggregate_delay` -/
 def pushAggregateDelay (b : Bottleneck) (blockDur : Nat) (now : Int) (clientExpiry : Bool) : Except SimFault Bottleneck := do
   let d := b.network.delay
-  let d4 ← durChk (4 * d)
-  let d3 ← durChk (3 * d)
-  let (c, s) :=
-    if clientExpiry then
-      (if d4 > blockDur then d4 - blockDur else 0, if d3 > blockDur then d3 - blockDur else 0)
-    else
-      (if d > blockDur then d - blockDur else 0, if d4 > blockDur then d4 - blockDur else 0)
+  -- the two multiples of the delay the taken branch of the code computes (`u32 * Duration` is checked)
+  let mc ← durChk ((if clientExpiry then Gen.SIM_AGG_CLIENTEXP_CLIENT else Gen.SIM_AGG_SERVEREXP_CLIENT) * d)
+  let ms ← durChk ((if clientExpiry then Gen.SIM_AGG_CLIENTEXP_SERVER else Gen.SIM_AGG_SERVEREXP_SERVER) * d)
+  let (c, s) := (if mc > blockDur then mc - blockDur else 0, if ms > blockDur then ms - blockDur else 0)
   let q := Heap.push PendingAgg.le b.aggQueue { time := now + c, delay := blockDur, client := true }
   let q := Heap.push PendingAgg.le q { time := now + s, delay := blockDur, client := false }
   pure { b with aggQueue := q, ghost := { b.ghost with aggPushed := b.ghost.aggPushed + 1 } }
@@ -140,31 +137,31 @@ def aggDelayOnBlockingExpire (sq : SimQueue) (isClient : Bool) (expire : Int) (h
   let q := sq.side isClient
   let bufferSize := q.blocking.len + q.bypassable.len
   let tail :=
-    if bufferSize > 2 then
+    if bufferSize > Gen.SIM_EXPIRE_BUFFER_MIN then
       (q.blocking.toList ++ q.bypassable.toList).foldl
-        (fun tail e => if dsince e.time head.time ≤ 1 * msec && e.time > tail then e.time else tail) head.time
+        (fun tail e => if dsince e.time head.time ≤ Gen.SIM_EXPIRE_BUFFER_WINDOW_NS && e.time > tail then e.time else tail) head.time
     else head.time
   if expire = tail then none else
   match q.base.peek with
   | some base =>
-    if dsince (base.time + aggBase) head.time ≤ 1 * msec then none else some (dsince expire tail)
+    if dsince (base.time + aggBase) head.time ≤ Gen.SIM_EXPIRE_BASE_WINDOW_NS then none else some (dsince expire tail)
   | none => some (dsince expire tail)
 
 /-- `agg_delay_on_padding_bypass_replace` -/
 def aggDelayOnPaddingBypassReplace (sq : SimQueue) (isClient : Bool) (now : Int) (head : SimEvent) (aggBase : Nat) : Option Nat :=
   let q := sq.side isClient
-  if (q.blocking.toList ++ q.bypassable.toList).any (fun e => dsince e.time head.time ≤ 100 * msec) then none else
+  if (q.blocking.toList ++ q.bypassable.toList).any (fun e => dsince e.time head.time ≤ Gen.SIM_REPLACE_ADJACENT_WINDOW_NS) then none else
   match q.base.peek with
   | some base =>
-    if dsince (base.time + aggBase) head.time ≤ 1 * msec then none else some (dsince now head.time)
+    if dsince (base.time + aggBase) head.time ≤ Gen.SIM_REPLACE_BASE_WINDOW_NS then none else some (dsince now head.time)
   | none => some (dsince now head.time)
 
 /-- `should_delayed_packet_prop_agg_delay` -/
 def shouldDelayedPacketPropAggDelay (sq : SimQueue) (isClient : Bool) (pkt : SimEvent) (aggBase : Nat) : Bool :=
   let q := sq.side isClient
-  if (q.blocking.toList ++ q.bypassable.toList).any (fun e => dsince e.time pkt.time ≤ 100 * msec) then false else
+  if (q.blocking.toList ++ q.bypassable.toList).any (fun e => dsince e.time pkt.time ≤ Gen.SIM_PROP_ADJACENT_WINDOW_NS) then false else
   match q.base.peek with
-  | some base => !(dsince (base.time + aggBase) pkt.time ≤ 1 * msec)
+  | some base => !(dsince (base.time + aggBase) pkt.time ≤ Gen.SIM_PROP_BASE_WINDOW_NS)
   | none => true
 
 /-! ### sim_network_stack -/
